@@ -113,6 +113,12 @@ fn format_extraction<TCompilationProfile: CompilationProfile>(
         let new_line_behavior = token.item.line_behavior;
         let indent_change = token.item.indent_change;
 
+        if !new_line_behavior.should_keep() {
+            // Removed tokens (i.e. commas) must not affect the output at all. In particular,
+            // a comma following a closing brace must not cause an additional line break.
+            continue;
+        }
+
         if let IndentChange::Dedent = indent_change {
             indent -= 1;
         }
